@@ -849,7 +849,7 @@ OPTION_PURE = ("next", "checked_sub", "checked_add", "checked_mul", "checked_div
 
 
 class Guard:
-    __slots__ = ("bb", "kind", "op", "L", "R", "Lc", "Rc", "text", "direct", "negated")
+    __slots__ = ("bb", "kind", "op", "L", "R", "Lc", "Rc", "text", "direct", "negated", "Ln", "Rn")
 
     def all(self):
         return self.L | self.R
@@ -858,6 +858,36 @@ class Guard:
 def _constval(ex):
     e = F.strip_casts(ex)
     return e[1] if e[0] == "const" else None
+
+
+def neg_leaves(ex, out=None, under=False):
+    """leaves of an origin expression that occur only as (part of) the subtrahend of a subtraction that cannot wrap: `a - p`
+    (overflow-checked), `a.saturating_sub(p)`, `a.checked_sub(p)`.  Where such a difference is compared from below
+    (`a.saturating_sub(p) >= n`), it is `p` that is bounded from above."""
+    top = out is None
+    if out is None:
+        out = (set(), set())        # (negative occurrences, positive occurrences)
+    if not isinstance(ex, tuple) or not ex:
+        return set() if top else None
+    k = ex[0]
+    if k == "bin" and X.norm_op(ex[1]) == "Sub" and "Unchecked" not in ex[1]:
+        neg_leaves(ex[2], out, under)
+        neg_leaves(ex[3], out, not under)
+    elif k == "call" and X.last_seg(ex[1] or "") in ("saturating_sub", "checked_sub") and len(ex[3]) == 2:
+        neg_leaves(ex[3][0], out, under)
+        neg_leaves(ex[3][1], out, not under)
+    elif k in ("bin",):
+        neg_leaves(ex[2], out, under)
+        neg_leaves(ex[3], out, under)
+    elif k in ("cast", "un"):
+        neg_leaves(ex[2], out, under)
+    elif k in ("deref", "ref", "downcast", "mut", "try") or (k == "field" and ex[1][0] in ("downcast", "try")):
+        neg_leaves(ex[1], out, under)
+    else:
+        out[0 if under else 1].update(leaves(ex))
+    if top:
+        return out[0] - out[1]
+    return None
 
 
 class Guards:
@@ -947,6 +977,7 @@ class Guards:
         # upper-bound reading of a comparison: what is under `min` is not bounded by it
         g.L, g.R = (leaves(l, opaque=("min",)) if l is not None else set()), (leaves(r, opaque=("min",)) if r is not None else set())
         g.Lc, g.Rc = (_constval(l) if l is not None else None), (_constval(r) if r is not None else None)
+        g.Ln, g.Rn = (neg_leaves(l) if l is not None else set()), (neg_leaves(r) if r is not None else set())
         self.guards.append(g)
 
     def _collect(self, bb, ex):
@@ -1035,9 +1066,12 @@ def upper_guard(dom, ex, body=None, bb=None, allow_discr=True):
         if g.kind == "cmp" and g.direct and body is not None and g.op in ("Lt", "Le", "Gt", "Ge"):
             side = _side(body, g, bb)
             if side is not None:
-                for mine, left in ((g.L, True), (g.R, False)):
-                    if mine & ls:
+                for mine, left, negs in ((g.L, True, getattr(g, "Ln", None) or set()), (g.R, False, getattr(g, "Rn", None) or set())):
+                    hit = mine & ls
+                    if hit:
                         below = (g.op in ("Lt", "Le")) == left      # `x < c` / `c > x`: true side bounds x from above
+                        if hit <= negs:
+                            below = not below       # `a.saturating_sub(x) >= n`: the value is the subtrahend of this side
                         if below == side:
                             return g
                 continue
